@@ -682,7 +682,9 @@ pub(crate) fn expr_from_program(
     let mut module_info = ModuleInfo::new();
     let stmts = stmts_from_program(program, file_path.clone(), &mut errs, &mut module_info);
 
-    let res = into_then_expr(stmts.as_slice()).unwrap_or(Expr::Error.into_id_without_span());
+    // a program without any expression-yielding statement (only type declarations, empty modules,
+    // stage declarations, ...) evaluates to unit
+    let res = into_then_expr(stmts.as_slice()).unwrap_or(Expr::Block(None).into_id_without_span());
 
     (res, module_info, errs)
 }
